@@ -16,7 +16,7 @@ from __future__ import annotations
 import ast
 
 from ..effects import StateEffects
-from ..model import Program, call_name, is_self_attr, norm, unroll_constant_loops
+from ..model import Program, call_name, is_self_attr, loops_to_comprehensions, norm, unroll_constant_loops, inline_private_helpers
 from ..report import AnalysisError
 
 PROP = "C09"
@@ -358,7 +358,10 @@ def rule_r5(rep, program: Program):
     d = ret[0].value
     get_map = {}
     filters = {}
+    built = loops_to_comprehensions(gs.body_without_docstring())  # e.g. a filtered cache built by a loop
     for k, v in zip(d.keys, d.values):
+        if isinstance(v, ast.Name) and v.id in built:
+            v = built[v.id]
         if not (isinstance(k, ast.Constant) and isinstance(k.value, str)):
             msg = "ChainState.__getstate__: non-literal key"
             raise AnalysisError(msg)
@@ -432,13 +435,22 @@ def rule_r5(rep, program: Program):
     return r
 
 
+def decorator_func(program: Program, dname: str):
+    """The cache decorator with private module-level helpers (e.g. an extracted registration step)
+    inlined, so that the protocol rules see the statements where they take effect."""
+    import dataclasses
+
+    d = program.func("states", dname)
+    return dataclasses.replace(d, node=inline_private_helpers(d))
+
+
 def wrapper_cross_call_state(program: Program):
     """Stores made by the cache wrappers into objects that outlive a call other than the ChainState:
     containers / names of the enclosing decorator scope, module globals, attributes of the system.
     Returns [(decorator name, node, description)]."""
     out = []
     for dname in ("cache_in_state", "cache_in_state_with_aux"):
-        d = program.func("states", dname)
+        d = decorator_func(program, dname)
         wrappers = [n for n in ast.walk(d.node) if isinstance(n, ast.FunctionDef) and n.name == "wrapper"]
         if len(wrappers) != 1:
             raise AnalysisError(f"{dname}: wrapper function not found")
@@ -505,7 +517,7 @@ def rule_r6(rep, program: Program):
         if isinstance(st, ast.Delete) or (isinstance(st, ast.Expr) and isinstance(st.value, ast.Call) and norm(st.value.func) == "self._cache.pop"):
             marker = marker or "<deleted>"
     for dname in ("cache_in_state", "cache_in_state_with_aux"):
-        d = program.func("states", dname)
+        d = decorator_func(program, dname)
         ws = [n for n in ast.walk(d.node) if isinstance(n, ast.FunctionDef) and n.name == "wrapper"]
         if len(ws) != 1:
             raise AnalysisError(f"{dname}: wrapper not found")
